@@ -191,9 +191,9 @@ def main():
             {"name": "E2", "path": "/verif/simcore, /verif/shims, /verif/harness/src/e2",
              "serves_properties": [p for p in ALL if p in CHECKS and CHECKS[p]["engine"].startswith("E2")],
              "kind_free_text": "whole DomainParticipants (real threads parked at the simulated Poll, one baton) under a seeded scheduler"},
-            {"name": "E3", "path": "/verif/harness/src/props (security)",
+            {"name": "E3", "path": "/verif/facade/sec.rs, /verif/facade/secnode.rs, /verif/fixtures/sec, /verif/harness/src/props/c17.rs, c19.rs (built with the crate's security feature into /verif/target-sec)",
              "serves_properties": [p for p in ALL if p in CHECKS and CHECKS[p]["engine"].startswith("E3")],
-             "kind_free_text": "real builtin security plugins as communicating parties over the simulated network"},
+             "kind_free_text": "real builtin security plugins (authentication, access control, cryptography) as communicating parties; the simulator is the channel between them (C19) or the wire in front of a real E1 receiver node that carries them (C17)"},
         ],
         "checks": checks,
         "not_applicable": na,
